@@ -63,6 +63,7 @@ type Explorer struct {
 	timedOut   bool
 	visited    map[uint64]int16
 	NoCache    bool // disable happens-before state caching (plain stateless search)
+	EnvOnly    bool // branch on environment choices only (deterministic default schedule): pure input/configuration enumeration
 }
 
 // DebugDiverge, when set, is called with parent and child executions on a replay divergence.
@@ -251,6 +252,9 @@ func (e *Explorer) exploreNode(x *Exec, plen int, depth int) {
 		c := &x.Choices[i]
 		for alt := 0; alt < c.N; alt++ {
 			if alt == c.Chosen {
+				continue
+			}
+			if e.EnvOnly && !c.Env {
 				continue
 			}
 			nc := costs[i]
